@@ -146,7 +146,11 @@ def known_match(prop, viol, world, known):
     for k in known:
         if k.get("property") != prop or k.get("state") != "open":
             continue
-        if k.get("sig") != viol.get("sig"):
+        if "sig" in k and k["sig"] != viol.get("sig"):
+            continue
+        if "sig_prefix" in k and not any(str(viol.get("sig", "")).startswith(pf) for pf in k["sig_prefix"]):
+            continue
+        if "sig" not in k and "sig_prefix" not in k:
             continue
         ok = True
         params = world.get("params", {})
@@ -560,6 +564,10 @@ def replay(mod, path):
         return 3
     same = [v for v in payload.get("violations", []) if v["sig"] == doc["sig"]]
     if same:
+        k = known_match(mod.ID, same[0], world, load_known())
+        if k is not None:
+            print("KNOWN-FINDING: property=%s %s [%s]" % (mod.ID, k["what"], k["id"]))
+            return 0
         print("VIOLATION property=%s replay=%s" % (mod.ID, path))
         print("  reproduced: clause=%s detail=%s" % (same[0].get("clause"), same[0].get("detail")))
         return 1
